@@ -11,6 +11,7 @@ ENGINES = {
     "fips": dict(src=["harness/fips.c", "harness/aesfam.c", "harness/hashalgs.c"], ldflags=["-Wl,--wrap=_aes_self_tests", "-Wl,--wrap=_sha_self_tests"]),
     "fipssched": dict(src=["harness/fipssched.c"], ldflags=["-Wl,--wrap=_aes_self_tests", "-Wl,--wrap=_sha_self_tests"]),
     "threads": dict(src=["harness/threads.c", "harness/aesfam.c", "harness/hashalgs.c"]),
+    "dispatch": dict(src=["harness/dispatch.c", "harness/aesfam.c", "harness/hashalgs.c"]),
     "trampeng": dict(src=["harness/trampeng.c", "harness/tramp.c", "harness/tramp.S", "harness/aesfam.c", "harness/hashalgs.c"], ldflags=["-rdynamic"]),
 }
 
@@ -279,6 +280,66 @@ def c18_tasks(tier):
     return t
 
 
+def c12_prepare(tier, run, h):
+    """phase 1: trace every bindable family under the single-stepper, classify the executed instructions."""
+    import os, json
+    import isa_classify
+    parts = 16
+    files = [os.path.join(h["tmp"], "trace-%d-%d.txt" % (os.getpid(), i)) for i in range(parts)]
+    tasks = [dict(engine="dispatch", variant="plain", timeout=3000,
+                  args=["--prop", "C12", "--mode", "trace", "--nparts", parts, "--part", i, "--trace-out", files[i], "--watchdog", 2900]) for i in range(parts)]
+    run(tasks)
+    exe = h["build_engine"]("dispatch", "plain")
+    req, stats, assumed, unknown = isa_classify.run(exe, [f for f in files if os.path.exists(f)])
+    if unknown:
+        h["die"]("tracer saw %d executed address(es) that objdump did not decode, e.g. %s" % (len(unknown), unknown[:3]))
+    if len(req) < 100:
+        h["die"]("trace phase produced instruction profiles for only %d targets" % len(req))
+    reqfile = os.path.join(h["tmp"], "c12-req-%d.txt" % os.getpid())
+    with open(reqfile, "w") as f:
+        for t, fs in sorted(req.items()):
+            f.write("%s %x\n" % (t, isa_classify.mask(fs)))
+    for fn in files:
+        try:
+            os.unlink(fn)
+        except OSError:
+            pass
+    fams = {}
+    for t, fs in req.items():
+        fams[t] = "+".join(sorted(fs)) or "baseline"
+    return dict(reqfile=reqfile, profiles=len(req), assumed=assumed,
+                sample_profiles={k: fams[k] for k in sorted(fams)[:400]}, instr_counts={k: stats[k]["total"] for k in sorted(stats)[:400]})
+
+
+_c12_state = {}
+
+
+def c12_tasks(tier, prep=None):
+    if prep is None:            # setup: just name the engine
+        return [dict(engine="dispatch", variant="plain", args=[])]
+    _c12_state["prep"] = prep
+    parts = 16
+    return [dict(engine="dispatch", variant="plain", timeout=7000,
+                 args=["--prop", "C12", "--mode", "observe", "--req", prep["reqfile"], "--nparts", parts, "--part", i, "--watchdog", 6900]) for i in range(parts)]
+
+
+def c12_post(results, libinfos, counts):
+    prep = _c12_state.get("prep", {})
+    space = 0
+    for r in results:
+        for l in r["lines"]:
+            if l.get("t") == "max" and l.get("name") == "configuration_space":
+                space = max(space, l["n"])
+    info = dict(instruction_profiles=prep.get("profiles"), features_required_per_target=prep.get("sample_profiles"), executed_instructions_per_target=prep.get("instr_counts"),
+                legacy_simd_mnemonics_assumed_present=prep.get("assumed"), configuration_space=space)
+    problems = []
+    if space and counts.get("configurations", 0) >= space:
+        counts["configs_complete"] = 1
+    else:
+        problems.append("only %d of %d configurations were evaluated" % (counts.get("configurations", 0), space))
+    return problems, info
+
+
 MH_FAMS = ["base", "sse", "avx", "avx2", "avx512"]
 GCM_FAMS = ["sse", "avx_gen2", "avx_gen4", "vaes_avx512"]
 AES_TRUST = TRUST + ["OpenSSL 3.0 EVP as second oracle for inputs longer than 4-8 KiB; ref, OpenSSL and published vectors are cross-checked at start-up"]
@@ -489,5 +550,24 @@ CHECKS = {
         assumptions=TRUST + ["a static that is written and restored within one call escapes the snapshot (the differential results and ThreadSanitizer are the backstop)",
                              "ThreadSanitizer sees only the compiled C layers, not the assembly"],
         tasks=c18_tasks,
+    ),
+    "C12": dict(
+        level="exploration", evaluations="bindings_observed", must_observe=["bindings_observed", "configurations", "traced_runs", "trace_steps", "rebinding_probes"],
+        level_text=("runtime observation of the real resolvers under a virtual CPU (hook ISAL_CRYPTO_VERIF): the configuration space is enumerated completely (quick: a stated quotient; thorough: every "
+                    "consistent assignment), the instruction requirements of each bound family are measured by single-stepping its execution on this host"),
+        rule=("phase 1 (tracer): each of the 64 dispatched entries is resolved under 10 named virtual CPUs and its workload (21 length classes; hash managers with 1, 3 and 36 jobs) runs with the trap "
+              "flag set; the set of executed instruction addresses inside library .text is joined with objdump and every instruction is classified from its encoding (legacy / VEX / EVEX), mnemonic and "
+              "operand width into SSE4.1, SSE4.2, SHA, AVX, AVX2, BMI, AVX512 F/VL/BW/DQ/CD/VBMI2/VBMI/IFMA/VNNI/BITALG/VPOPCNTDQ, GFNI, VAES, VPCLMULQDQ -> one requirement mask per family function. "
+              "phase 2 (observer): for every consistent configuration of CPUID.1 {SSE4.1, SSE4.2, OSXSAVE, AVX, model=Avoton}, CPUID.7 {AVX2, AVX512 F/DQ/CD/BW/VL, SHA, VBMI2, GFNI, VAES, VPCLMULQDQ, VNNI, "
+              "BITALG, VPOPCNTDQ} and XCR0 {SSE, AVX, opmask+ZMM} (quick: each AVX-512 group reduced to all / none / one-bit-missing / minimal; thorough: every assignment) all slots are re-armed, every "
+              "entry is called once, and: the bound family's requirement mask must be a subset of what the configuration makes executable (VEX needs AVX+OSXSAVE+XCR0[2:1], EVEX also XCR0[7:5] and the "
+              "CPUID bits); XGETBV may not run when OSXSAVE=0; entries of one object (hash init/submit/flush, GCM precompute/init/update/finalize/one-shot/nt per key size, multi-hash update/finalize) must "
+              "bind one family; the result must equal the host's; a later call under a very different configuration must not rebind nor query CPUID again. AES entries are evaluated from their documented "
+              "floor (SSE4.1+AESNI) upward. distinct_nontrivial = distinct configurations + distinct binding vectors + distinct traced targets"),
+        assumptions=TRUST + ["instruction availability is decided by classifying what a family executed on this host, not by running on hardware that lacks the features",
+                             "AES-NI, PCLMULQDQ, SSSE3/SSE3, POPCNT, MOVBE and (with AVX2) BMI1/BMI2/FMA are assumed present wherever a family using them is selectable; the mnemonics concerned are listed in the evidence",
+                             "a rarely taken path inside a family that uses a foreign instruction could be missed by the trace workload"],
+        tasks=c12_tasks, prepare=c12_prepare, post=c12_post, setup_tasks=lambda: [dict(engine="dispatch", variant="plain", args=[])],
+        exhaustive_key="configs_complete", exhaustive_over="the enumerated configuration space (quick: quotient of the AVX-512 bit groups; thorough: all consistent assignments) x 64 entries",
     ),
 }
